@@ -12,6 +12,7 @@ RULE = ("one state = one point (source descriptor, target descriptor, window siz
 
 ENV = dict(os.environ, OMPI_ALLOW_RUN_AS_ROOT='1', OMPI_ALLOW_RUN_AS_ROOT_CONFIRM='1', PARSEC_MCA_bind_threads='0')
 ALLD = 'bc,sbcL,sbcU'
+SS = 'sbcL-to-sbcL,sbcL-to-sbcU,sbcU-to-sbcL,sbcU-to-sbcU,'
 
 
 def build(ctx):
@@ -93,12 +94,14 @@ def check(ctx):
     if quick:
         # quick box: 2DBC -> 2DBC with matrix sizes <= 5; the eight pairs involving SBC descriptors with sizes <= 4
         shards('a', 3, ['--maxm', '5', '--ydist', 'bc', '--tdist', 'bc'], 60)
-        shards('b', 2, ['--maxm', '4', '--ydist', ALLD, '--tdist', ALLD, '--skip', 'bc-to-bc,'], 60)
+        shards('b', 2, ['--maxm', '4', '--ydist', ALLD, '--tdist', ALLD, '--skip', 'bc-to-bc,' + SS], 60)
+        shards('c', 1, ['--maxm', '4', '--ydist', 'sbcL,sbcU', '--tdist', 'sbcL,sbcU'], 60)
     else:
         # thorough box: every distribution pair with sizes <= 6x6; k-cyclic columns (kq 2 on either side) for 2DBC -> 2DBC with sizes <= 5x5
         shards('a', 4, ['--maxm', '6', '--ydist', 'bc', '--tdist', 'bc'], 750)
-        shards('b', 4, ['--maxm', '6', '--ydist', ALLD, '--tdist', ALLD, '--skip', 'bc-to-bc,'], 750)
-        shards('c', 2, ['--maxm', '5', '--ydist', 'bc', '--tdist', 'bc', '--kq', '1,2', '--skip-k11'], 750)
+        shards('b', 4, ['--maxm', '6', '--ydist', ALLD, '--tdist', ALLD, '--skip', 'bc-to-bc,' + SS], 750)
+        shards('c', 2, ['--maxm', '6', '--ydist', 'sbcL,sbcU', '--tdist', 'sbcL,sbcU'], 750)
+        shards('d', 2, ['--maxm', '5', '--ydist', 'bc', '--tdist', 'bc', '--kq', '1,2', '--skip-k11'], 750)
     # ---- legs M: multi-rank, reduced boxes ----
     mjobs = []
     if quick:
